@@ -61,6 +61,10 @@ def run(ctx: Ctx, rep: Report) -> None:
     rule_enumid(ctx, rep, ('bqskit/passes/synthesis/',
                            'bqskit/passes/processing/',
                            'bqskit/passes/rules/'), 5)
+    # analytic decompositions adjoin their complex factors consistently
+    from ..rules.adjoint import rule_adjoint
+    rule_adjoint(ctx, rep, ('bqskit/passes/synthesis/',
+                            'bqskit/utils/math.py'), 6)
     # a structural pass that re-wraps a block keeps the operation's params
     from ..rules.paramflow import rule_paramflow
     rule_paramflow(
